@@ -881,9 +881,14 @@ class StrainEnergy:
             3x3 rotation matrix
         '''
         self.rotation = np.array(rot)
+        #re-apply the rotation if the elastic tensors were supplied before the rotation
+        if self.unrotated_cMatrix_4th.any():
+            self.update()
 
     def setRotationPrecipitate(self, rot):
         self.rotationPrec = np.array(rot)
+        if self.unrotated_cMatrix_4th.any():
+            self.update()
 
     def setEigenstrain(self, strain):
         '''
